@@ -386,7 +386,7 @@ pub fn run(e: &Engine) {
         crate::engine::guarded(|| check_sweep(&s, rec)).map_err(|f| (json!({"sweep": hex(&s.bytes)}), f))
     });
     if e.tier == crate::engine::Tier::Thorough {
-        crate::fuzzrun::campaign(e, "reader_versions", 300_000, 700);
+        crate::fuzzrun::campaign(e, "reader_versions", 80_000, 700);
     }
     for cls in ["version_1", "version_2", "version_3", "file_shorter_than_36_bytes", "v1_node_over_32_transitions", "v2_node_over_32_transitions", "container:Mmap", "container:CowBorrowed", "sweep:unsupported_version", "sweep:supported_version_too_short", "sweep:opens", "golden_v1", "golden_v3"] {
         e.require_class(cls, 1);
